@@ -246,6 +246,10 @@ func c15Custom(t *testing.T, sc *world.Scenario, out *Outcome) {
 	if failing > 0 {
 		out.probe("old-leader-had-failing-writes")
 	}
+	if len(w.Fatals) > 0 {
+		// a node that loses its lease ends its process: a restart, which this property is about
+		out.probe("node-ended-itself(klog.Fatal)")
+	}
 	out.Steps = s.StepNo()
 	out.SimMs = s.SimTime().Milliseconds()
 	out.Hash = s.Hash()
